@@ -28,6 +28,10 @@ def run_call(c, variant):
     alphabet = [LETTERS[(k + rot) % A] for k in range(A)]
     if as_string:
         mo_args = ["".join(alphabet[s] for s in mb[0]) for mb in c["mo"]]
+        if len(mo_args) > 1 and (variant // 5) % 2:
+            # a motif list in mixed forms: strings and one-hot tensors side by side (first a string, or first a tensor)
+            first = (variant // 10) % 2
+            mo_args = [(m if (k % 2 == first) else mos[k]) for k, m in enumerate(mo_args)]
     else:
         mo_args = mos
     ins = [x] + mos
